@@ -202,6 +202,7 @@ func runC07(c *Ctx, tier string) {
 	runDemandCoverage(c, "C07-D7")
 	runFilterPushdownKept(c, "C07-D8")
 	runSortFieldPairing(c, "C07-D9", "C07-N2")
+	runStatefulNotParallel(c, "C07-X1")
 	runSortKeyOverlap(c, "C07-K2")
 	runMergeOrderNeedsSortedParents(c, "C07-M1")
 	runCutOrderFromCopies(c, "C07-K3")
@@ -470,6 +471,7 @@ func runC08(c *Ctx, tier string) {
 	runSplitSummarizeTailKeys(c, "C08-D4")
 	runPartialOutputForm(c, "C08-P4")
 	runLiftedSortSingleKey(c, "C08-M2")
+	runStatefulNotParallel(c, "C08-X1")
 	c.Rule("C08-N1", "the merge that recombines scan legs orders nulls like the lake does (= C16-N1: comparators on the lake path are built with nullsMax = true)")
 	checkNullsMax(c, "C08-N1")
 	c.Rule("C08-N2", "a sort is split into per-leg sorts and a merge only after its null placement was consulted (= C07-N2)")
